@@ -79,7 +79,7 @@ MARKER_FAULTS = ['drop_marker', 'drop_triple_markers', 'drop_layout_markers', 'd
                  'stale_entry', 'fresh_pop', 'alias_lists', 'reverse_markers']
 REORDERINGS = ['swap_triples', 'rotate', 'reverse', 'shuffle', 'sort_by_role', 'move_triple']
 CONTENT_EDITS = ['add_attr', 'add_edge', 'add_node', 'add_island', 'remove_triple', 'set_top', 'rename_var']
-ILLFORMED_EDITS = ['dup_triple', 'dup_instance', 'drop_instance']
+ILLFORMED_EDITS = ['dup_triple', 'dup_instance', 'drop_instance', 'retype_var']
 
 EDIT_ROLES = [':ARG0', ':ARG1', ':mod', ':op1', ':op2', ':domain', ':quant', ':name', ':polarity']
 EDIT_CONSTS = ['-', '7', 0, '"str"', 1.5, 'sym', None, 0.0, '"a b"', -1]
@@ -333,6 +333,26 @@ def _apply_op(g, op, res=None):
         if not vs:
             return None
         T.insert(b % (n + 1), (vs[a % len(vs)], ':instance', 'second'))
+        return name
+    if name == 'retype_var':
+        # "any list of triples": a variable that is not a string (programmatic graphs use ints or floats as node ids)
+        if not vs:
+            return None
+        old = vs[a % len(vs)]
+        new = [7, 1.5, -3, 12][b % 4]
+        if new in set(vs) or any(new == t[2] for t in T):
+            return None
+        ren = lambda x: new if (x == old and type(x) is type(old)) else x      # noqa: E731
+        newT = [(ren(s_), r_, t_ if r_ == ':instance' else ren(t_)) for s_, r_, t_ in T]
+        epi = {}
+        for t_, l in g.epidata.items():
+            nt = (ren(t_[0]), t_[1], t_[2] if t_[1] == ':instance' else ren(t_[2]))
+            epi[nt] = [Push(new) if (isinstance(e, Push) and e.variable == old) else e for e in l]
+        T[:] = newT
+        g.epidata.clear()
+        g.epidata.update(epi)
+        if g._top is not None and g._top == old:
+            g._top = new
         return name
     if name == 'drop_instance':
         inst = [t for t in T if t[1] == ':instance']
